@@ -7,31 +7,95 @@ NOTES = ('Every check is ./check <id>: contracts in /verif/contracts/c_*.py on t
          'pyvc. Exit 0 held / 1 VIOLATION / 2 undecided (unknown, unsupported construct) / 3 checker error or vacuity. '
          'Bounded stand-ins are listed per evidence file under coverage.bounded and never counted as discharged.')
 
+SPECTRUM_TRUST = ['python list semantics (concatenation, repetition, slicing with clamping and negative wrap, slice '
+                  'assignment, index, zip) as encoded in pyvc/slist.py',
+                  'Enum members inside symbolic-length lists are represented by integer codes',
+                  'order_slots/restore_order: assumed contract for one-entry requests, checked bounded']
+
 PROPS = {
     'C01': {
         'level': 'proof',
         'claim': 'Class invariant of SpectralInformation (total power > 0, the three shares in [0,1] and summing to 1, '
                  'hence signal+ASE+NLI = channel power) proved preserved, for all channel counts and values, by every '
-                 'mutator of the class and by construction/selection/merge; 1/GSNR identity proved on the derived figures.',
+                 'mutator of the class, by construction/selection/merge and by ROADM, fused and amplifier propagation; '
+                 '1/GSNR = 1/OSNR_ASE + 1/SNR_NLI proved on the figures the receiver reports, also after update_snr.',
         'level_note': 'exact real arithmetic instead of floats; numpy element-wise semantics assumed; NLI <= channel power '
-                      'is a stated precondition of add_nli',
+                      'is a stated precondition of add_nli; fibre propagation and the path loop are not yet under contract',
         'trusted': NUMPY_TRUST,
         'assumptions': ['NLI handed to add_nli lies in [0, channel power] (the property limits itself to launch powers '
                         'where the first-order NLI estimate stays below the channel power)'],
         'extra': [],
     },
+    'C04': {
+        'level': 'proof',
+        'claim': 'Saturation clamp on total input power (after the input VOA), never above p_max and reduced only as needed; '
+                 'ASE = h f B NF referred to the input; min/max-NF model laws (non-increasing with gain, dB-for-dB below '
+                 'minimum gain, nf_min at max flat gain and nf_max at min gain within the 0.01 dB acceptance of '
+                 'estimate_nf_model), dual-stage Friis composition, band filter: all proved on the real functions.',
+        'level_note': '_gain_profile (polyfit + secant step) is an assumed contract (one gain per channel); its '
+                      'normalisation to the effective gain is not proved; OpenROADM / advanced polynomial NF models are '
+                      'read through uninterpreted polyval; a one-channel spectrum raises IndexError (finding F16)',
+        'trusted': NUMPY_TRUST + ['Edfa._gain_profile (assumed contract)'],
+        'extra': [],
+    },
+    'C06': {
+        'level': 'proof',
+        'claim': 'Roadm.propagate proved for all spectra and all six policy/precedence branches: every channel leaves at '
+                 'min(target + offset, input - path loss) with the target of the egress degree if set else of the node '
+                 '(constant power, PSD x baud rate, PSW x slot width), never with more power than it entered; PMD/PDL in '
+                 'quadrature; shares untouched.',
+        'level_note': 'get_impairment is an assumed contract (one value per channel, max loss >= 0); single-policy '
+                      'enforcement at load/design time (RoadmParams, merge_equalization, set_roadm_per_degree_targets) '
+                      'is not yet under contract',
+        'trusted': NUMPY_TRUST + ['Roadm.get_impairment (assumed contract)'],
+        'extra': [],
+    },
     'C07': {
         'level': 'proof',
-        'claim': 'under construction',
-        'level_note': 'under construction',
+        'claim': 'Constructor: rejected exactly when neighbouring slots overlap or a baud rate exceeds its slot, all 16 '
+                 'per-channel arrays permuted by one sorting permutation; select_channels / demux / __add__: every array '
+                 'restricted/merged with ONE common index map, in-band channels all kept, frequency order restored.',
+        'level_note': 'numpy argsort/mask indexing/append are assumed contracts; filter_si, find_common_range and the '
+                      'multiband dispatch are not yet under contract',
         'trusted': NUMPY_TRUST,
-        'not_applicable': 'check under construction in this commit',
+        'extra': [],
     },
-    'C06': {'level': 'proof', 'claim': 'uc', 'level_note': 'uc', 'trusted': NUMPY_TRUST, 'not_applicable': 'under construction'},
-    'C02': {'level': 'proof', 'claim': 'uc', 'level_note': 'uc', 'trusted': NUMPY_TRUST, 'not_applicable': 'under construction'},
-    'C05': {'level': 'proof', 'claim': 'uc', 'level_note': 'uc', 'trusted': NUMPY_TRUST, 'not_applicable': 'under construction'},
-    'C13': {'level': 'proof', 'claim': 'uc', 'level_note': 'uc', 'trusted': NUMPY_TRUST, 'not_applicable': 'under construction'},
-    'C04': {'level': 'proof', 'claim': 'uc', 'level_note': 'uc', 'trusted': NUMPY_TRUST, 'not_applicable': 'under construction'},
-    'C15': {'level': 'proof', 'claim': 'uc', 'level_note': 'uc', 'trusted': [], 'not_applicable': 'under construction'},
-    'C14': {'level': 'proof', 'claim': 'uc', 'level_note': 'uc', 'trusted': [], 'not_applicable': 'under construction'},
+    'C13': {
+        'level': 'proof',
+        'claim': 'Receiver figures: _calc_snr definitions and the inverse-sum identity; update_snr adds every given '
+                 'contribution exactly once on top of the RAW figures and never writes raw_* or osnr_nli (frame), so '
+                 'recomputing for successive modes cannot accumulate.',
+        'level_note': 'update_snr proved for up to three contributions (the loop is a fold over a tuple); verdict '
+                      'thresholds and the mode search loop in request.py are not yet under contract',
+        'trusted': NUMPY_TRUST,
+        'extra': [],
+    },
+    'C14': {
+        'level': 'proof',
+        'claim': 'Slot assignment chain proved on the real functions for maps of any size and content: assign_spectrum '
+                 'marks exactly [N-M, N+M-1]; bitmap_sum/aggregate give FREE iff FREE on every OMS of the path and never '
+                 'alias a real map; determine_slot_numbers (loop invariant) and spectrum_selection return only free '
+                 'windows inside the guard bands, first fit returns the lowest feasible one; compute_n_m changes no real '
+                 'map; pth_assign_spectrum: accepted => range was free on every path OMS and occupancy = old + range, '
+                 'user-fixed N/M verbatim, enough slots; blocked => no labels, no spectrum change.',
+        'level_note': 'structure bounds of the compute_n_m / pth_assign_spectrum contracts: one request with one (N, M) '
+                      'entry over a two-OMS list (path over one or both); map sizes, extents and contents unbounded. '
+                      'The history clause (occupancy = union of accepted ranges, pairwise disjoint) follows by induction '
+                      'from the per-call contract (DESIGN 4, C14) and is not a separate machine-checked lemma. User-fixed '
+                      'N outside the map raises ValueError (F11, precondition).',
+        'trusted': SPECTRUM_TRUST,
+        'extra': [{'name': 'order_slots', 'kind': 'bounded', 'script': 'bounded/order_slots.py'}],
+    },
+    'C15': {
+        'level': 'proof',
+        'claim': 'frequency<->slot index maps, Bitmap construction, insert_left/right, the align_grids loop body for an '
+                 'arbitrary map (any number of maps) and create_oms_bitmap (1-3 common bands) proved for all extents: '
+                 'every map covers n(f_min)..n(f_max), usable exactly inside the common bands, indices unique and '
+                 'consecutive, old occupancy kept at its index.',
+        'level_note': 'the OMS partition of the graph (build_oms_list walk, reversed_oms pairing) is a bounded stand-in on '
+                      'designed topologies <= 4 ROADM sites + the shipped multiband example; find_elements_common_range is '
+                      'a ghost parameter here',
+        'trusted': SPECTRUM_TRUST[:2],
+        'extra': [{'name': 'oms_partition', 'kind': 'bounded', 'script': 'bounded/oms_partition.py', 'timeout': 1200}],
+    },
 }
